@@ -7,6 +7,7 @@ import (
 	"github.com/go-git/go-billy/v6"
 
 	"github.com/go-git/go-git/v6/plumbing"
+	"github.com/go-git/go-git/v6/storage"
 	"github.com/go-git/go-git/v6/utils/ioutil"
 )
 
@@ -25,6 +26,25 @@ func (d *DotGit) setRefRwfs(fileName, content string, old *plumbing.Reference) (
 	// stale packed-refs entry), and content written by a writer that gets the
 	// lock first would be overwritten in place without being cut off.
 	mode := os.O_RDWR | os.O_CREATE
+
+	if old != nil {
+		// A compare-and-set of a reference that has no loose file (nothing, or
+		// left-over directories, at its path) is decided by
+		// packed-refs. Refuse it before O_CREATE makes an empty loose file:
+		// that file could not be removed again without racing with a writer
+		// that has opened it in the meantime and waits for the lock (its
+		// update would go to the unlinked file and be lost).
+		fi, serr := d.fs.Stat(fileName)
+		if os.IsNotExist(serr) || (serr == nil && fi.IsDir()) {
+			ref, perr := d.packedRef(old.Name())
+			if perr != nil {
+				return perr
+			}
+			if referenceChanged(ref, old) {
+				return storage.ErrReferenceHasChanged
+			}
+		}
+	}
 
 	f, err := d.fs.OpenFile(fileName, mode, 0o666)
 	if err != nil && d.removeEmptyDirs(fileName) {
@@ -51,11 +71,6 @@ func (d *DotGit) setRefRwfs(fileName, content string, old *plumbing.Reference) (
 
 	err = d.checkReferenceAndTruncate(f, old)
 	if err != nil {
-		// O_CREATE may just have made an empty file for a reference that is
-		// packed or missing; a refused update must not leave it behind.
-		if fi, serr := d.fs.Stat(fileName); serr == nil && fi.Size() == 0 {
-			_ = d.fs.Remove(fileName)
-		}
 		return err
 	}
 
